@@ -14,21 +14,168 @@ open RgVerif.Lemmas.ReplaceIter RgVerif.Lemmas.ReplaceFold RgVerif.Lemmas.Printe
 def kept (capsAt : Nat → Option Caps) (hay : Bytes) (rs re : Nat) (atEnd : Bool) : List Caps :=
   (allMatches capsAt hay.length rs).takeWhile (keep re atEnd)
 
-/-- end of the last kept match, or the start of the range when nothing is kept -/
-def lastEnd (rs : Nat) (ks : List Caps) : Nat :=
-  match ks.getLast? with
-  | some c => (sp c).e
-  | none => rs
+/-! ### the regex iterator yields sorted, disjoint matches -/
 
-theorem fold_state (names : List (Bytes × Nat)) (bytes : Bytes) (re : Nat) (atEnd : Bool) (tmpl : Bytes) :
-    ∀ (ms : List Caps) (st : RState),
-      (foldUntil (replaceStep names bytes re atEnd tmpl) st ms).lastMatch = lastEnd st.lastMatch (ms.takeWhile (keep re atEnd)) ∧
-      (foldUntil (replaceStep names bytes re atEnd tmpl) st ms).spans.length =
-        st.spans.length + (ms.takeWhile (keep re atEnd)).length ∧
-      (st.spans ≠ [] → (foldUntil (replaceStep names bytes re atEnd tmpl) st ms).spans.head? = st.spans.head?) := by
+theorem specIter_lower {capsAt : Nat → Option Caps} {len : Nat} (hs : Sane capsAt len) :
+    ∀ fuel pos last c, c ∈ specIter capsAt len fuel pos last → pos ≤ (sp c).s := by
+  intro fuel
+  induction fuel with
+  | zero => intro pos last c h; simp [specIter] at h
+  | succ fuel ih =>
+    intro pos last c h
+    rw [specIter_succ] at h
+    by_cases hgt : pos > len
+    · simp [hgt] at h
+    · simp only [hgt, ↓reduceIte] at h
+      cases hc : capsAt pos with
+      | none => simp [hc] at h
+      | some c0 =>
+        simp only [hc] at h
+        split at h
+        · unfold retry at h
+          by_cases hgt' : pos + 1 > len
+          · simp [hgt'] at h
+          · simp only [hgt', ↓reduceIte] at h
+            cases hc' : capsAt (pos + 1) with
+            | none => simp [hc'] at h
+            | some c1 =>
+              simp only [hc', List.mem_cons] at h
+              have h1 := hs.ge _ _ hc'
+              have h2 := hs.le _ _ hc'
+              rcases h with rfl | h
+              · omega
+              · have := ih _ _ _ h; omega
+        · simp only [List.mem_cons] at h
+          have h1 := hs.ge _ _ hc
+          have h2 := hs.le _ _ hc
+          rcases h with rfl | h
+          · exact h1
+          · have := ih _ _ _ h; omega
+
+theorem specIter_pairwise {capsAt : Nat → Option Caps} {len : Nat} (hs : Sane capsAt len) :
+    ∀ fuel pos last, (specIter capsAt len fuel pos last).Pairwise (fun a b => (sp a).e ≤ (sp b).s) := by
+  intro fuel
+  induction fuel with
+  | zero => intro pos last; simp [specIter]
+  | succ fuel ih =>
+    intro pos last
+    rw [specIter_succ]
+    by_cases hgt : pos > len
+    · simp [hgt]
+    · simp only [hgt, ↓reduceIte]
+      cases hc : capsAt pos with
+      | none => simp
+      | some c0 =>
+        simp only
+        split
+        · unfold retry
+          by_cases hgt' : pos + 1 > len
+          · simp [hgt']
+          · simp only [hgt', ↓reduceIte]
+            cases hc' : capsAt (pos + 1) with
+            | none => simp
+            | some c1 =>
+              simp only [List.pairwise_cons]
+              exact ⟨fun x hx => specIter_lower hs _ _ _ x hx, ih _ _⟩
+        · simp only [List.pairwise_cons]
+          exact ⟨fun x hx => specIter_lower hs _ _ _ x hx, ih _ _⟩
+
+/-- sorted, disjoint, well-formed: what the fold below needs of the iterator's matches -/
+def SortedCaps (ms : List Caps) : Prop :=
+  ms.Pairwise (fun a b => (sp a).e ≤ (sp b).s) ∧ ∀ c ∈ ms, (sp c).s ≤ (sp c).e
+
+theorem allMatches_sorted {capsAt : Nat → Option Caps} {len : Nat} (hs : Sane capsAt len) (start : Nat) :
+    SortedCaps (allMatches capsAt len start) := by
+  refine ⟨specIter_pairwise hs _ _ _, ?_⟩
+  intro c hc
+  obtain ⟨p, hp⟩ := specIter_mem hc
+  exact hs.le p c hp
+
+/-! ### the replace loop over sorted matches, with `last_match` clamped to the end of the range -/
+
+theorem fold_stop (names : List (Bytes × Nat)) (bytes : Bytes) (re : Nat) (atEnd : Bool) (tmpl : Bytes)
+    (ms : List Caps) (st : RState) (h : ∀ c ∈ ms, keep re atEnd c = false) :
+    foldUntil (replaceStep names bytes re atEnd tmpl) st ms = st ∧ ms.takeWhile (keep re atEnd) = [] := by
+  cases ms with
+  | nil => simp [foldUntil]
+  | cons c rest =>
+    have hk := h c (by simp)
+    have hcond : beyondRange re atEnd (sp c).s = true := by
+      unfold keep at hk
+      unfold beyondRange
+      cases atEnd <;> simp at hk ⊢ <;> omega
+    have hstep : replaceStep names bytes re atEnd tmpl st c = (st, false) := by
+      unfold replaceStep; simp only [sp] at hcond; simp [hcond]
+    simp [foldUntil, hstep, List.takeWhile_cons, hk]
+
+/-- **The replace loop is replace-all over the kept matches**, also when a kept match reaches beyond the range
+(then it is the last one kept: every later match starts behind it). -/
+theorem fold_spec_sorted (names : List (Bytes × Nat)) (bytes : Bytes) (re to : Nat) (atEnd : Bool) (tmpl : Bytes)
+    (hto : to ≤ re) :
+    ∀ (ms : List Caps), SortedCaps ms → ∀ (st : RState),
+      (foldUntil (replaceStep names bytes re atEnd tmpl) st ms).dst ++
+        slice bytes (foldUntil (replaceStep names bytes re atEnd tmpl) st ms).lastMatch to =
+      st.dst ++ replaceAllSpec bytes (fun c => interpolate (envOf bytes names c) tmpl)
+        (ms.takeWhile (keep re atEnd)) st.lastMatch to := by
   intro ms
   induction ms with
-  | nil => intro st; simp [foldUntil, lastEnd]
+  | nil => intro _ st; simp [foldUntil, replaceAllSpec, slice]
+  | cons c ms ih =>
+    intro hsorted st
+    have hpw := hsorted.1
+    rw [List.pairwise_cons] at hpw
+    have hrest : SortedCaps ms := ⟨hpw.2, fun x hx => hsorted.2 x (by simp [hx])⟩
+    by_cases hk : keep re atEnd c = true
+    · have hcond : beyondRange re atEnd (sp c).s = false := by
+        unfold keep at hk
+        unfold beyondRange
+        cases atEnd <;> simp at hk ⊢ <;> omega
+      have hstep : replaceStep names bytes re atEnd tmpl st c =
+          (⟨min (sp c).e re, st.dst ++ slice bytes st.lastMatch (sp c).s ++ interpolate (envOf bytes names c) tmpl,
+            st.spans ++ [⟨(st.dst ++ slice bytes st.lastMatch (sp c).s).length,
+              (st.dst ++ slice bytes st.lastMatch (sp c).s).length + (interpolate (envOf bytes names c) tmpl).length⟩]⟩,
+           true) := by
+        unfold replaceStep; simp only [sp] at hcond ⊢; simp [hcond]
+      simp only [foldUntil, hstep, ↓reduceIte, List.takeWhile_cons, hk]
+      by_cases hce : (sp c).e ≤ re
+      · have hmin : min (sp c).e re = (sp c).e := by omega
+        rw [ih hrest, hmin]
+        simp [replaceAllSpec, slice, sp, List.append_assoc]
+      · -- the match reaches beyond the range: nothing behind it is kept
+        have hnone : ∀ r ∈ ms, keep re atEnd r = false := by
+          intro r hr
+          have := hpw.1 r hr
+          unfold keep
+          cases atEnd <;> simp <;> omega
+        obtain ⟨hf, htw⟩ := fold_stop names bytes re atEnd tmpl ms
+          ⟨min (sp c).e re, st.dst ++ slice bytes st.lastMatch (sp c).s ++ interpolate (envOf bytes names c) tmpl,
+            st.spans ++ [⟨(st.dst ++ slice bytes st.lastMatch (sp c).s).length,
+              (st.dst ++ slice bytes st.lastMatch (sp c).s).length + (interpolate (envOf bytes names c) tmpl).length⟩]⟩
+          hnone
+        rw [hf, htw]
+        have hmin : min (sp c).e re = re := by omega
+        have e1 : slice bytes re to = [] := by
+          unfold slice; apply List.drop_eq_nil_of_le; simp [List.length_take]; omega
+        have e2 : (bytes.take to).drop (sp c).e = [] := by
+          apply List.drop_eq_nil_of_le; simp [List.length_take]; omega
+        simp only [hmin, e1, replaceAllSpec, List.append_nil]
+        simp [slice, sp, e2, List.append_assoc] at e2 ⊢
+        simpa [sp] using e2
+    · have hcond : beyondRange re atEnd (sp c).s = true := by
+        unfold keep at hk
+        unfold beyondRange
+        cases atEnd <;> simp at hk ⊢ <;> omega
+      have hstep : replaceStep names bytes re atEnd tmpl st c = (st, false) := by
+        unfold replaceStep; simp only [sp] at hcond; simp [hcond]
+      simp [foldUntil, hstep, List.takeWhile_cons, hk, replaceAllSpec, slice]
+
+theorem fold_spans (names : List (Bytes × Nat)) (bytes : Bytes) (re : Nat) (atEnd : Bool) (tmpl : Bytes) :
+    ∀ (ms : List Caps) (st : RState),
+      (foldUntil (replaceStep names bytes re atEnd tmpl) st ms).spans.length =
+        st.spans.length + (ms.takeWhile (keep re atEnd)).length := by
+  intro ms
+  induction ms with
+  | nil => intro st; simp [foldUntil]
   | cons c ms ih =>
     intro st
     by_cases hk : keep re atEnd c = true
@@ -36,94 +183,50 @@ theorem fold_state (names : List (Bytes × Nat)) (bytes : Bytes) (re : Nat) (atE
         unfold keep at hk
         unfold beyondRange
         cases atEnd <;> simp at hk ⊢ <;> omega
-      have hstep : ∃ st' x, replaceStep names bytes re atEnd tmpl st c = (st', true) ∧
-          st'.lastMatch = (sp c).e ∧ st'.spans = st.spans ++ [x] := by
+      have hstep : ∃ st' x, replaceStep names bytes re atEnd tmpl st c = (st', true) ∧ st'.spans = st.spans ++ [x] := by
         unfold replaceStep; simp only [sp] at hcond ⊢; simp only [hcond, Bool.false_eq_true, ↓reduceIte]
-        exact ⟨_, _, rfl, rfl, rfl⟩
-      obtain ⟨st', x, hst', hlm, hsp⟩ := hstep
+        exact ⟨_, _, rfl, rfl⟩
+      obtain ⟨st', x, hst', hsp⟩ := hstep
       simp only [foldUntil, hst', ↓reduceIte, List.takeWhile_cons, hk]
-      obtain ⟨h1, h2, h3⟩ := ih st'
-      rw [hlm] at h1
-      rw [hsp] at h2 h3
-      refine ⟨?_, ?_, ?_⟩
-      · rw [h1]
-        simp only [lastEnd]
-        cases hl : (ms.takeWhile (keep re atEnd)).getLast? with
-        | none =>
-          have : ms.takeWhile (keep re atEnd) = [] := by simpa using hl
-          simp [this]
-        | some d =>
-          have : (c :: ms.takeWhile (keep re atEnd)).getLast? = some d := by
-            rw [List.getLast?_cons]
-            simp [hl]
-          simp [this]
-      · rw [h2]; simp; omega
-      · intro hne
-        rw [h3 (by simp)]
-        cases hs : st.spans with
-        | nil => exact absurd hs hne
-        | cons a b => simp
+      rw [ih st', hsp]
+      simp; omega
     · have hcond : beyondRange re atEnd (sp c).s = true := by
         unfold keep at hk
         unfold beyondRange
         cases atEnd <;> simp at hk ⊢ <;> omega
       have hstep : replaceStep names bytes re atEnd tmpl st c = (st, false) := by
         unfold replaceStep; simp only [sp] at hcond; simp [hcond]
-      simp [foldUntil, hstep, List.takeWhile_cons, hk, lastEnd]
+      simp [foldUntil, hstep, hk]
 
-/-- The state after `replace_with_captures_in_context`: where the last kept match ended and how many
-expansions were recorded. -/
-theorem replace_state (capsAt : Nat → Option Caps) (names : List (Bytes × Nat))
-    (bytes : Bytes) (rs re : Nat) (atEnd : Bool) (tmpl : Bytes) (hs : Sane capsAt bytes.length) :
-    (replaceWithCapturesInContext capsAt names bytes rs re atEnd tmpl).lastMatch = lastEnd rs (kept capsAt bytes rs re atEnd) ∧
-    (replaceWithCapturesInContext capsAt names bytes rs re atEnd tmpl).spans.length = (kept capsAt bytes rs re atEnd).length := by
+/-- `replace_all` in multi-line mode: its buffer is the replace-all over the kept matches, one expansion offset per
+kept match — for every sane matcher, no guard. -/
+theorem replaceAllMulti_eq (sc : SCfg) (capsAtOf : Bytes → Nat → Option Caps) (names : List (Bytes × Nat))
+    (haystack : Bytes) (rs re : Nat) (tmpl : Bytes)
+    (hs : Sane (capsAtOf (cutHaystack sc haystack re)) (cutHaystack sc haystack re).length) :
+    (replaceAllMulti sc capsAtOf names haystack rs re tmpl).dst =
+      replaceAllSpec (cutHaystack sc haystack re)
+        (fun c => interpolate (envOf (cutHaystack sc haystack re) names c) tmpl)
+        (kept (capsAtOf (cutHaystack sc haystack re)) (cutHaystack sc haystack re) rs re
+          (isAtUnterminatedEnd sc.lt (cutHaystack sc haystack re) rs re))
+        rs (min (cutHaystack sc haystack re).length re) ∧
+    (replaceAllMulti sc capsAtOf names haystack rs re tmpl).spans.length =
+      (kept (capsAtOf (cutHaystack sc haystack re)) (cutHaystack sc haystack re) rs re
+          (isAtUnterminatedEnd sc.lt (cutHaystack sc haystack re) rs re)).length := by
+  unfold replaceAllMulti
+  simp only
   rw [replace_unfold]
   simp only
   rw [iterGo_eq_fold]
   have hc := collect_eq_allMatches hs rs
   rw [hc]
-  have := fold_state names bytes re atEnd tmpl (allMatches capsAt bytes.length rs) ⟨rs, [], []⟩
-  simpa [kept] using And.intro this.1 this.2.1
-
-/-- The guard of C19 under -U: no kept match ends beyond the block (which can only happen when the look-ahead
-cut lets the matcher answer differently from what the searcher saw). -/
-def NoMatchBeyond (capsAt : Nat → Option Caps) (hay : Bytes) (rs re : Nat) (atEnd : Bool) : Prop :=
-  ∀ c ∈ kept capsAt hay rs re atEnd, (sp c).e ≤ min hay.length re
-
-theorem lastEnd_le (rs : Nat) (ks : List Caps) (bound : Nat) (hrs : rs ≤ bound) (h : ∀ c ∈ ks, (sp c).e ≤ bound) :
-    lastEnd rs ks ≤ bound := by
-  unfold lastEnd
-  cases hl : ks.getLast? with
-  | none => exact hrs
-  | some c => exact h c (List.mem_of_getLast? hl)
-
-/-- Under the guard `replace_all` does not panic, and its buffer is the replace-all over the kept matches. -/
-theorem replaceAllMulti_eq (sc : SCfg) (capsAtOf : Bytes → Nat → Option Caps) (names : List (Bytes × Nat))
-    (haystack : Bytes) (rs re : Nat) (tmpl : Bytes)
-    (hs : Sane (capsAtOf (cutHaystack sc haystack re)) (cutHaystack sc haystack re).length)
-    (hrs : rs ≤ min (cutHaystack sc haystack re).length re)
-    (hg : NoMatchBeyond (capsAtOf (cutHaystack sc haystack re)) (cutHaystack sc haystack re) rs re
-      (isAtUnterminatedEnd sc.lt (cutHaystack sc haystack re) rs re)) :
-    ∃ st, replaceAllMulti sc capsAtOf names haystack rs re tmpl = some st ∧
-      st.dst = replaceAllSpec (cutHaystack sc haystack re)
-        (fun c => interpolate (envOf (cutHaystack sc haystack re) names c) tmpl)
-        (kept (capsAtOf (cutHaystack sc haystack re)) (cutHaystack sc haystack re) rs re
-          (isAtUnterminatedEnd sc.lt (cutHaystack sc haystack re) rs re))
-        rs (min (cutHaystack sc haystack re).length re) ∧
-      st.spans.length = (kept (capsAtOf (cutHaystack sc haystack re)) (cutHaystack sc haystack re) rs re
-          (isAtUnterminatedEnd sc.lt (cutHaystack sc haystack re) rs re)).length := by
-  unfold replaceAllMulti
-  simp only
-  have hst := replace_state (capsAtOf (cutHaystack sc haystack re)) names (cutHaystack sc haystack re) rs re
-    (isAtUnterminatedEnd sc.lt (cutHaystack sc haystack re) rs re) tmpl hs
-  have hle := lastEnd_le rs _ _ hrs hg
-  rw [← hst.1] at hle
-  have hnot : ¬ (replaceWithCapturesInContext (capsAtOf (cutHaystack sc haystack re)) names (cutHaystack sc haystack re) rs re
-      (isAtUnterminatedEnd sc.lt (cutHaystack sc haystack re) rs re) tmpl).lastMatch >
-      min (cutHaystack sc haystack re).length re := by omega
-  simp only [hnot, ↓reduceIte]
-  refine ⟨_, rfl, ?_, hst.2⟩
-  exact replace_eq_spec _ names _ rs re _ tmpl hs
+  have hsorted := allMatches_sorted hs rs
+  have h1 := fold_spec_sorted names (cutHaystack sc haystack re) re (min (cutHaystack sc haystack re).length re)
+    (isAtUnterminatedEnd sc.lt (cutHaystack sc haystack re) rs re) tmpl (by omega)
+    (allMatches (capsAtOf (cutHaystack sc haystack re)) (cutHaystack sc haystack re).length rs) hsorted ⟨rs, [], []⟩
+  have h2 := fold_spans names (cutHaystack sc haystack re) re
+    (isAtUnterminatedEnd sc.lt (cutHaystack sc haystack re) rs re) tmpl
+    (allMatches (capsAtOf (cutHaystack sc haystack re)) (cutHaystack sc haystack re).length rs) ⟨rs, [], []⟩
+  exact ⟨by simpa [kept] using h1, by simpa [kept] using h2⟩
 
 /-- the replaced text of the block `[rs, re)`: replace-all (with ripgrep's interpolation) over the kept matches
 of the cut haystack, unmatched text copied, up to the end of the block -/
@@ -142,16 +245,14 @@ theorem printReplacedBlock_eq (sc : SCfg) (c : StdCfg) (capsAtOf : Bytes → Nat
     (names : List (Bytes × Nat)) (buf : Bytes) (rs re absOff : Nat) (ln : Option Nat) (tmpl : Bytes)
     (hml : sc.multiLine = true) (ho : c.onlyMatching = false) (hp : c.perMatch = false)
     (hs : Sane (capsAtOf (cutHaystack sc buf re)) (cutHaystack sc buf re).length)
-    (hrs : rs ≤ min (cutHaystack sc buf re).length re)
-    (hg : NoMatchBeyond (capsAtOf (cutHaystack sc buf re)) (cutHaystack sc buf re) rs re
-      (isAtUnterminatedEnd sc.lt (cutHaystack sc buf re) rs re))
     (hk : kept (capsAtOf (cutHaystack sc buf re)) (cutHaystack sc buf re) rs re
       (isAtUnterminatedEnd sc.lt (cutHaystack sc buf re) rs re) ≠ [])
     (hok : (splitLines sc.lt.asByte (replacedText sc capsAtOf names buf rs re tmpl)).all (crlfLineOk sc.lt) = true) :
     ∃ k, printReplacedBlock sc c capsAtOf names buf rs re absOff ln tmpl =
-      some ((blockRecords sc.lt c absOff ln (optIf c.column k) 0 0
-        (splitLines sc.lt.asByte (replacedText sc capsAtOf names buf rs re tmpl))).flatMap (printRecord c)) := by
-  obtain ⟨st, hst, hdst, hlen⟩ := replaceAllMulti_eq sc capsAtOf names buf rs re tmpl hs hrs hg
+      (blockRecords sc.lt c absOff ln (optIf c.column k) 0 0
+        (splitLines sc.lt.asByte (replacedText sc capsAtOf names buf rs re tmpl))).flatMap (printRecord c) := by
+  obtain ⟨hdst, hlen⟩ := replaceAllMulti_eq sc capsAtOf names buf rs re tmpl hs
+  generalize hst : replaceAllMulti sc capsAtOf names buf rs re tmpl = st at hdst hlen
   have hspans : st.spans ≠ [] := by
     intro h
     rw [h] at hlen
